@@ -26,6 +26,8 @@ from pv.core import Sub, EnumSub, Violation, call, call_or, short
 from pv.codec import build, Env, token, vtoken, is_nan_spec
 
 ASSUMPTIONS = [
+    'ints beyond the range of a float (10**400, 2**1024) are cells and condition values like any other int; a case that holds one spells its numpy FLOAT scalars as python floats, because numpy itself refuses the comparison '
+    '(np.float64(0.0) == 10**400 raises OverflowError), so python equality is not defined for such a pair (numpy ints compare fine and stay)',
     'cells are None, ints (also beyond 2**53), python floats incl. +-inf and -0.0 and floats that differ from one another (or from an int) by less than numpy.isclose\'s tolerance, float NaN objects (2 identities), strings (also format directives like %s), and - one number in several raw types - '
     'numpy int64 / float64 scalars of small value and numpy\'s float64 NaN, as in the quantifier (no bools, no dates)',
     'numpy int64 scalars beyond 2**53 are not used: numpy compares them with floats after rounding where python compares exactly, so "the cell equals the value" would depend on the operand order',
@@ -1049,7 +1051,7 @@ _FLAVOURS = {
     # one number in several raw types: python int / float, numpy int64 / float64 (a float subclass), numpy NaN
     'numpy': st.sampled_from([1, 1.0, ['np', 'float64', 1.0], ['np', 'int64', 1], 2.5, ['np', 'float64', 2.5], ['np', 'int64', 2], 2, ['nan', -1], ['nan', 0], None]),
     'pct': st.sampled_from(['%s', '%d', '100%', 'a', '%(a)s', '%']),
-    # ints beyond the range of a float next to floats, infinities and NaN (class 38)
+    # ints beyond the range of a float next to floats, infinities and NaN (class 38); numpy floats of such a case are spelt as python floats, see _plain_floats_next_to_huge
     'huge': st.one_of(st.sampled_from([10 ** 400, 10 ** 400 + 1, -(10 ** 400), 2 ** 1024]), st.sampled_from([['inf', 1], 1.5, 0, 1e308, ['inf', -1]]), _NAN),
     # values that differ by less than a tolerance (rtol 1e-5 / atol 1e-8): equal for np.isclose or after rounding, different for python
     'near': st.sampled_from([x for pair in _NEAR_PAIRS for x in pair]),         # strings that are format directives (find_ builds its messages with %)
@@ -1424,8 +1426,41 @@ def enum_small(tier):
 
 # ----------------------------------------------------------------------------- registration
 
+def _plain_floats_next_to_huge(spec):
+    """numpy itself refuses to compare a float scalar with an int beyond the range of a float (np.float64(0.0) == 10 ** 400 raises OverflowError), so "python equality" of such a pair
+    is not defined: a case that holds such an int spells its numpy floats as python floats (numpy ints compare fine)"""
+    found = []
+
+    def scan(v):
+        if isinstance(v, int) and not isinstance(v, bool) and abs(v) >= 2 ** 1024:
+            found.append(v)
+        elif isinstance(v, list):
+            for x in v:
+                scan(x)
+        elif isinstance(v, dict):
+            for x in v.values():
+                scan(x)
+    scan(spec)
+    if not found:
+        return spec
+
+    def fix(v):
+        if isinstance(v, list):
+            if len(v) == 3 and v[0] == 'np' and isinstance(v[1], str) and v[1].startswith('float'):
+                return fix(v[2])
+            return [fix(x) for x in v]
+        if isinstance(v, dict):
+            return {k: fix(x) for k, x in v.items()}
+        return v
+    return fix(spec)
+
+
+def _huge_safe(casefn):
+    return lambda tier: casefn(tier).map(_plain_floats_next_to_huge)
+
+
 SUBS = [
-    Sub('filters', _filters_case, run_partition, quick=3000, thorough=30000,
+    Sub('filters', _huge_safe(_filters_case), run_partition, quick=3000, thorough=30000,
         rule='tables of 0-8 rows x 1-3 columns (thorough 0-12 x 1-4) of None/ints/floats/NaN objects/strings, about 8% of them LARGE (64/65/100/128/200 rows, thorough also 257/500: '
              'short column patterns repeated), column names nested in one another, +-inf cells in about 17% of the tables (a row whose infinite cell meets a NaN condition must only be in exactly one of inc / exc); a conjunction of 0-3 column conditions '
              '(value, list of admissible values, None, NaN, compiled regex) passed as keywords, one dict, dict + keywords, several dicts, or the same dict object twice. '
@@ -1449,7 +1484,7 @@ SUBS = [
                       'cond_is_a_column_list_of_the_table': 0.006, 'cond_is_the_conditioned_column_itself': 0.003, 'list_as_long_as_the_table': 0.015, 'list_as_long_as_the_table:row_aligned_reading_differs': 0.006, 'numpy_scalar': 0.04, 'one_value_in_several_raw_types': 0.025, 'numbers_only_column': 0.08, 'int_beyond_2**53_next_to_float': 0.01, 'int_beyond_float_range': 0.008, 'int_beyond_2**53:unequal_but_equal_as_floats': 0.007, 'negative_zero': 0.003, 'condition_dict_reused:form=dict': 0.02, 'condition_dict_reused:form=dicts': 0.015, 'condition_dict_reused:form=dict_twice': 0.01, 'condition_dict_reused:other_dicts_mattered': 0.007, 'condition_evaluated_after_rows_were_dropped': 0.035, 'two_conditioned_columns_are_one_list': 0.009, 'columns_share_one_list': 0.04, 'form=dict_twice': 0.035,
                       # round-5/6 classes (appendix 21-29)
                       'near_miss_within_tolerance': 0.008}),
-    Sub('predicate', _predicate_case, run_partition, quick=2000, thorough=15000,
+    Sub('predicate', _huge_safe(_predicate_case), run_partition, quick=2000, thorough=15000,
         rule='same tables; ONE callable over 1-3 named columns: a catalogue of total predicates (is None, is NaN, is str, > 0, str(a) < str(b), a == b, '
              'constant True / False) or an arbitrary truth table on the rows, written in about 45% of the cases not as `lambda a, b:` but with keyword-only parameters, *rest, **kw, a container default on every (column) parameter, '
              'or an extra non-column parameter whose container default must stay, or as a functools.partial that has bound a container to z_ by keyword or to its first parameter positionally (that parameter then often named like a column the predicate is not about); in about 40% of the cases the verdict is returned as a truthy / falsy non-bool (0/1, 0/2, None/x, empty/non-empty str or list, or a kind that varies from row to row). oracle: the truth value of the same python predicate applied to the plain records. '
@@ -1461,7 +1496,7 @@ SUBS = [
                                  'function_shape_not_plain': 0.08, 'shape=kwonly': 0.011, 'shape=varkw': 0.011, 'shape=varargs': 0.011, 'shape=first_then_kwonly': 0.011, 'shape=default_extra': 0.011, 'shape=default_cols': 0.011, 'default=tuple_n': 0.004, 'default=list_n': 0.004, 'default=dict_cols': 0.004, 'default=column': 0.004, 'default=empty': 0.004, 'columns_share_one_list': 0.04,
                                  # round-5/6 classes (appendix 24)
                                  'predicate_is_a_functools_partial': 0.025, 'shape=partial_kw': 0.011, 'shape=partial_pos': 0.011, 'partial_bound_parameter_is_named_like_a_column': 0.004}),
-    Sub('find', _find_case, run_find, quick=2500, thorough=15000,
+    Sub('find', _huge_safe(_find_case), run_find, quick=2500, thorough=15000,
         rule='same tables and conditions (filters or one callable, whose verdict is a non-bool truthy / falsy value in about 40% of the callable cases) plus a column: find_<col>(condition) must return the one value held by the selected rows and '
              'raise ValueError when no row or two different values are selected; one_or_none(condition[, exc=][, find=]) must give None / the row / ValueError '
              'for 0 / 1 / several selected rows; in about 1 case in 9 the column searched holds just two numbers that differ by less than a tolerance (two values: find_ must raise when both are selected), in about 1 in 8 one_or_none gets its own defaults exc = None, find = None explicitly; '
@@ -1471,9 +1506,9 @@ SUBS = [
                                  # round-4 classes (appendix 13, 14, 16, 17)
                                  'function_shape_not_plain': 0.03, 'percent_sign_in_found_column': 0.015, 'percent_sign_in_multiple_values': 0.004, 'numpy_scalar_in_found_column': 0.013, 'cond_is_a_column_list_of_the_table': 0.0045, 'form=dict_twice': 0.03,
                                  # round-5/6 classes (appendix 24, 26, 27, 29)
-                                 'shape=partial_kw': 0.005, 'shape=partial_pos': 0.005, 'one_or_none_defaults_passed_explicitly': 0.03, 'found_values_differ_only_within_tolerance': 0.007,
+                                 'shape=partial_kw': 0.003, 'shape=partial_pos': 0.003, 'one_or_none_defaults_passed_explicitly': 0.03, 'found_values_differ_only_within_tolerance': 0.007,
                                  'found_value_is_falsy': 0.027, 'one_or_none_found_value_is_falsy': 0.011}),
-    Sub('session', _session_case, run_session, quick=1200, thorough=8000,
+    Sub('session', _huge_safe(_session_case), run_session, quick=1200, thorough=8000,
         rule='same tables; 2-5 steps on ONE table object: inc / exc / find_<col> with a condition, or (between two queries) table[col] = new column, after which the query made before is often made again. '
              'Up to 3 columns have two alternative conditions each and a step conditions a prefix of them (sometimes reversed), so the steps\' conditions are prefixes / extensions / permutations of one another '
              'or differ in one value only, mostly in one form; a third of the sessions also use two callables of one shape over the same columns, made by ONE factory (one code object). The condition objects - values, lists, '
